@@ -14,7 +14,7 @@ RULE = ('vespr_layout is wrapped with an icontract postcondition evaluated on EV
         '2-vector; no two bonded nodes closer than 1e-6 x the requested bond length; mean bond length == requested bond length '
         '(relative 1e-9). Workload: every connected graph-atlas graph with 2-7 nodes (quick: every 4th, thorough: all 995), '
         'chains, stars, rings, fused rings, grids and random trees up to 60 nodes, resolver outputs with hydrogens and with '
-        'cis/trans annotations (exercises the subgraph rotation); bond lengths {0.3, 1, 1.5, 7} and, less often, {0.002, 40, 250}; node relabelings (shuffled '
+        'cis/trans annotations (exercises the subgraph rotation); bond lengths {0.3, 1, 1.5, 7} and, less often, {0.002, 40, 250, 1.5e-10 (metres)}; node relabelings (shuffled '
         'integers, sparse integers, strings); a sixth of the graphs laid out a second time after an in-place edit with unchanged atom and bond counts; NumPy global RNG reseeded per call (spring initialisation). distinct = (graph '
         'class, size, relabeling, bond length); non-trivial = at least 3 nodes.')
 ASSUMPTIONS = ['coincidence threshold 1e-6 x bond length (smallest bonded distance seen in probes: 0.46 x)',
@@ -70,7 +70,7 @@ def setup():
     hooks.wrap_attr('cgsmiles.graph_layout', 'vespr_layout', factory, also=['cgsmiles.drawing'])
 
 
-BONDS = [0.3, 1, 1.5, 7, 0.3, 1, 1.5, 7, 40, 250, 0.002]
+BONDS = [0.3, 1, 1.5, 7, 0.3, 1, 1.5, 7, 40, 250, 0.002, 1.5e-10]
 
 
 def synth_graph(rng):
